@@ -31,6 +31,8 @@ def write_tree(root, tree):
     for rel, (c, m) in tree.items():
         p = os.path.join(root, *rel.split("/"))
         os.makedirs(os.path.dirname(p), exist_ok=True)
+        if os.path.islink(p):
+            os.remove(p)
         with open(p, "wb") as f:
             f.write(c)
         os.utime(p, ns=(m, m))
